@@ -71,12 +71,14 @@ func init() {
 		// parameter holding a struct (signer/signer.go:109) -> expiry = now + duration and the default
 		// signing agent stay tied to the code by the correspondence harness only
 		{Pkg: sig, Type: "Signer", Opaque: true},
+		{Pkg: "github.com/notaryproject/tspclient-go", Type: "Timestamper", Nilable: true},
+		{Pkg: "github.com/notaryproject/notation-core-go/revocation", Type: "Validator", Nilable: true},
 		{Pkg: sig, Func: "Signer.KeySpec", Oracle: true},
 		{Pkg: sig, Type: "Envelope", Opaque: true},
 		{Pkg: sig, Func: "NewEnvelope", Oracle: true},
 		{Pkg: sig, Func: "Envelope.Sign", Oracle: true},
 		{Pkg: sig, Func: "Envelope.Verify", Oracle: true},
-		{Pkg: sig, Func: "(*SignRequest).WithContext", Oracle: true},
+		{Pkg: sig, Func: "(*SignRequest).WithContext", Oracle: true, FreshResults: true}, // returns a shallow copy
 		{Pkg: "encoding/json", Func: "Marshal", Oracle: true},
 		{Pkg: "time", Func: "Time.Add", Oracle: true},
 		{Pkg: ".../signer", Func: "(*GenericSigner).Sign"},
